@@ -1178,11 +1178,14 @@ func main() {
 	tasks = append(tasks, persistTasks()...)
 	tasks = append(tasks, torrentMetaTasks()...)
 	tasks = append(tasks, handshakeTasks(thorough)...)
+	hparsers := allHistoryParsers(thorough)
+	tasks = append(tasks, histTasks(hparsers)...)
 
-	run.Rule = "values: every listed value of each type is printed/serialized and parsed back by the real functions (digest: 64 positions x 22 hex characters + fixed bodies, via String/Parse, Hex ctor, JSON, SQL; digest lists: all lists up to length 3/5 over 3 digests + nil; info hash / peer id: every single-byte value at every position + SHA-1 values; piece status: every {empty,complete} vector up to length 9/14; access times: special seconds x 4 sub-second values x 4 zones + dense sweeps of +-1500/10000 s around each varint length boundary (both signs) and a present-day time; persist: both; torrent meta: lengths 0..9 x piece lengths 1..4; handshake: bitfield sizes 0..130/200 x (n+6) patterns x 2 constructions, all patterns up to size 10/14, 5 remote-bitfield maps x 5 namespaces on boundary sizes, through toP2PMessage + real framing + handshakeFromP2PMessage). malformed: prefix x body x suffix products with every position of 62..66-character bodies replaced by each of 18 character classes, every byte value 0..255 at every position of a 64-character body, all strings up to length 2/3 over {s,h,a,2,:,g,G,space}, wrong lengths / one non-hex character for ids, incomplete varints, non-boolean strings, every strict truncation of serialized bitfields; parsers must accept iff an independently written recogniser does. A case is distinct per (type, value or input string); strings of length <= 3 are counted as trivial and not distinct."
+	run.Rule = "values: every listed value of each type is printed/serialized and parsed back by the real functions (digest: 64 positions x 22 hex characters + fixed bodies, via String/Parse, Hex ctor, JSON, SQL; digest lists: all lists up to length 3/5 over 3 digests + nil; info hash / peer id: every single-byte value at every position + SHA-1 values; piece status: every {empty,complete} vector up to length 9/14; access times: special seconds x 4 sub-second values x 4 zones + dense sweeps of +-1500/10000 s around each varint length boundary (both signs) and a present-day time; persist: both; torrent meta: lengths 0..9 x piece lengths 1..4; handshake: bitfield sizes 0..130/200 x (n+6) patterns x 2 constructions, all patterns up to size 10/14, 5 remote-bitfield maps x 5 namespaces on boundary sizes, through toP2PMessage + real framing + handshakeFromP2PMessage). malformed: prefix x body x suffix products with every position of 62..66-character bodies replaced by each of 18 character classes, every byte value 0..255 at every position of a 64-character body, all strings up to length 2/3 over {s,h,a,2,:,g,G,space}, wrong lengths / one non-hex character for ids, incomplete varints, non-boolean strings, every strict truncation of serialized bitfields; parsers must accept iff an independently written recogniser does. A case is distinct per (type, value or input string); strings of length <= 3 are counted as trivial and not distinct. HISTORIES (histories.go): for each parser with a caller-supplied destination (Digest.UnmarshalJSON / json.Unmarshal / Scan, Digest as JSON struct field and map value, DigestList.Scan / json.Unmarshal / as JSON struct field, LastAccessTime / Persist / piece-status / TorrentMeta Deserialize on the registry's object) and for each value-returning parser (ParseSHA256Digest, NewSHA256DigestFromHex, NewInfoHashFromHex, NewPeerID, readMessage+handshakeFromP2PMessage) every history p1..pk,cur is run on ONE long-lived destination and judged after cur: accepted iff cur is well formed, and then the destination holds exactly the value cur denotes (independent denotation), whatever p1..pk left there (values of successful parses or partial writes of failed ones); for value-returning parsers additionally no later parse may change an earlier result. Input alphabet where a digest is expected: 3 digests + 23 other JSON values (null, true/false, 5 numbers, 3 objects, 3 nested arrays, empty string, 8 malformed strings) + non-JSON documents; digest-list documents: every sequence of these 26 values up to length 2/3, every sequence over a 9-class reduced alphabet of length 3/4, every non-array value at top level (null denotes the nil list), 18 non-JSON documents. History bounds: single digest k<=3 over 5 prior inputs; digest lists k=1 over 14 prior inputs and k=2 over 5 (quick), k=1 over 22 and k=2..3 over 6 (thorough), prior inputs = all valid lists over 2 digests up to length 2/3, null, and failing documents that stop after writing a prefix; string parsers, access times, persist flags, torrent meta and handshake k<=2 over their whole alphabet; piece status k=1 over all vectors up to length 4/6 and k=2 over those up to length 2/3. A history case is distinct per (parser, history, input) for k<=1 and per (parser, history) for k>=2."
 	run.Assume("small-scope: parsers distinguish inputs only by length, prefix and per-character class; one representative per class at every position, and single-byte variation of 20-byte identifiers, expose their defects")
 	run.Assume("access times are within [year 1, year 9999] (the range time.Time itself can format); compared at second granularity as the statement says")
 	run.Assume("piece-status vectors range over {empty, complete}: a dirty status is never written to the sidecar (WriteMetadataAt writes only 'complete'); the lenient mapping of unknown status bytes to 'empty' is not judged")
+	run.Assume("histories: what a parser may depend on besides its input is the content of its destination (and state it keeps itself); destinations reachable by at most 3 earlier parses over the stated prior-input sets (lengths 0..3, spare slice capacity after a longer list, partial writes of a failed parse) expose such dependence. The state a FAILED parse leaves in the destination is not judged, nor are JSON documents with surrounding whitespace, escape sequences, duplicate or missing members, or null for a pointer-typed digest field (the statement does not decide them)")
 	run.Assume("well-formedness is fixed by the statement only for digests; for the other types only inputs no reading would call well-formed are required to be rejected (wrong length or non-hex identifier, incomplete varint, non-boolean string, truncated bitfield); upper-case hex identifiers, alternative boolean spellings and trailing bytes are left undecided and not enumerated")
 
 	var mu sync.Mutex
@@ -1232,9 +1235,12 @@ func main() {
 	run.Sample(map[string]interface{}{"type": "digest", "input": "sha256:" + lower64[:63] + "g", "expect": "rejected by Parse, UnmarshalJSON, Scan"})
 	run.Sample(map[string]interface{}{"type": "digest", "input": "sha256:" + strings.ToUpper(lower64), "expect": "accepted, String() returns the input"})
 	run.Sample(map[string]interface{}{"type": "access time", "unix": 1 << 34, "expect": "Serialize then Deserialize gives the same second"})
+	run.Sample(map[string]interface{}{"type": "digest list history", "destination_history": []string{`["sha256:<A>","sha256:<B>"]`}, "input": `["sha256:<C>",null]`, "expect": "Scan fails (an element is JSON null); it may not return [C,B]"})
+	run.Sample(map[string]interface{}{"type": "digest list history", "destination_history": []string{`["sha256:<A>","sha256:<B>","sha256:<B>"]`, `["sha256:<A>"]`}, "input": "null", "expect": "Scan succeeds and the destination is the nil list"})
 	run.Sample(map[string]interface{}{"type": "handshake", "bitfield": "size 65, only bit 64", "expect": "same length and bits after toP2PMessage + framing + handshakeFromP2PMessage"})
 	if skipped == 0 {
-		for _, k := range []string{"digest_valid_values", "digest_candidates_malformed", "digest_candidates_well_formed", "digest_lists", "infohash_values", "peerid_values", "infohash_malformed", "piece_status_vectors", "access_times", "access_times_malformed", "persist_values", "persist_malformed", "torrent_metas", "handshakes", "handshakes_malformed", "bitfields", "remote_bitfield_maps"} {
+		for _, k := range []string{"digest_valid_values", "digest_candidates_malformed", "digest_candidates_well_formed", "digest_lists", "infohash_values", "peerid_values", "infohash_malformed", "piece_status_vectors", "access_times", "access_times_malformed", "persist_values", "persist_malformed", "torrent_metas", "handshakes", "handshakes_malformed", "bitfields", "remote_bitfield_maps",
+			"hist_parses", "hist_parses_into_reused_destination", "hist_parses_after_a_failed_parse", "hist_reused_destination_accepted", "hist_well_formed_inputs", "hist_malformed_inputs"} {
 			if total.counts[k] == 0 {
 				run.Fatal(fmt.Errorf("vacuity: no case of class %s was evaluated", k))
 			}
